@@ -95,7 +95,7 @@ func (g *exprGen) expr(depth int) {
 		g.leaf()
 		return
 	}
-	switch g.r.Intn(24) {
+	switch g.r.Intn(26) {
 	case 0:
 		g.emit("F")
 		g.emit(strList(g.words(3))...)
@@ -149,6 +149,10 @@ func (g *exprGen) expr(depth int) {
 		g.emit("MN", g.r.Pick(algSeps), g.r.Pick([]string{"-1", "-1", "0", "1", "2", "3", "4"}))
 		g.expr(depth - 1)
 		g.expr(depth - 1)
+	case 24, 25:
+		g.emit("PT")
+		g.emit(strList(g.words(3))...)
+		g.expr(depth - 1)
 	case 20:
 		g.emit("LI", g.r.Pick(algSeps))
 		g.expr(depth - 1)
@@ -180,7 +184,7 @@ func algGen(r *Rng, i int, cfg int, tier string) []string {
 	cf = append(cf, g.out...)
 	for _, t := range g.out {
 		switch t {
-		case "V", "D", "T", "S", "M", "C", "F", "R", "FA", "FP", "P", "X", "Y", "G", "U", "N", "Q", "L", "H", "MP", "MN", "LI", "UL", "B":
+		case "V", "D", "T", "S", "M", "C", "F", "R", "FA", "FP", "P", "X", "Y", "G", "U", "N", "Q", "L", "H", "MP", "MN", "LI", "UL", "B", "PT":
 			note("node=" + t)
 		}
 	}
@@ -295,6 +299,13 @@ func buildExpr(t []string) (carapace.Action, []string) {
 		d := t[0]
 		t = t[1:]
 		return sub().UniqueList(d), t
+	case "PT":
+		l := list()
+		a := sub()
+		return carapace.ActionCallback(func(c carapace.Context) carapace.Action {
+			inv := a.Invoke(c)
+			return carapace.Batch(inv.Filter(l...).ToA(), inv.Retain(l...).ToA()).ToA()
+		}), t
 	case "B":
 		n := atoi(t[0])
 		t = t[1:]
